@@ -833,6 +833,39 @@ class Ctx:
             return None
         return self._extract_model(self.solver.model())
 
+    # -- files ---------------------------------------------------------------------
+    def tmp_path(self, name):
+        """A file path: in-memory file system (symbolic mode) / real temp dir (concrete mode)."""
+        if self.mode == "sym":
+            return "/symx-mem/" + name
+        if self.tmpdir is None:
+            import tempfile
+            self.tmpdir = tempfile.mkdtemp(prefix="symx-replay-")
+        import os
+        return os.path.join(self.tmpdir, name)
+
+    def read_text(self, path):
+        if self.mode == "sym":
+            return self.scratch.get("memfs", {}).get(path)
+        try:
+            with open(path) as fh:
+                return fh.read()
+        except FileNotFoundError:
+            return None
+
+    def write_text(self, path, text):
+        if self.mode == "sym":
+            self.scratch.setdefault("memfs", {})[path] = text
+        else:
+            with open(path, "w") as fh:
+                fh.write(text)
+
+    def cleanup(self):
+        if self.tmpdir is not None:
+            import shutil
+            shutil.rmtree(self.tmpdir, ignore_errors=True)
+            self.tmpdir = None
+
     # -- misc ----------------------------------------------------------------------
     def note(self, s):
         if self.mode == "sym":
@@ -1021,4 +1054,5 @@ def run_concrete(fn, params, model, choices, tier="quick", seed=0):
         err = str(exc)
     finally:
         _set_current(None)
+        ctx.cleanup()
     return ctx, status, err
